@@ -652,7 +652,11 @@ fn canon(text: &str) -> String {
             '>' => {
                 if cur.ends_with('=') { cur.push(c); } else { flush(&mut cur, &mut toks); toks.push(T::Close(c)); }
             }
-            ';' | ',' | '|' | '&' | '\n' => { flush(&mut cur, &mut toks); toks.push(T::Sep(c)); }
+            '=' if i + 1 < cs.len() && cs[i + 1] == '>' => { cur.push_str("=>"); i += 2; continue; }
+            ';' | ',' | '|' | '&' | '\n' | '=' | ':' => { flush(&mut cur, &mut toks); toks.push(T::Sep(c)); }
+            'e' if cs[i..].starts_with(&['e', 'x', 't', 'e', 'n', 'd', 's', ' ']) && i > 0 && cs[i - 1] == ' ' => {
+                flush(&mut cur, &mut toks); toks.push(T::Sep('e')); i += 7; continue;
+            }
             _ => cur.push(c),
         }
         i += 1;
@@ -687,7 +691,7 @@ fn canon(text: &str) -> String {
             rendered.sort();
             rendered.join(&format!(" {s} "))
         }
-        group(&parts, &[';', ',', '|', '&'])
+        group(&parts, &[';', ',', '=', 'e', ':', '|', '&'])
     }
     let mut i = 0;
     level(&toks, &mut i)
@@ -941,6 +945,16 @@ fn main() {
         };
         let (c1, c2) = (canon_of(&base), canon_of(&other));
         let differing: Vec<&String> = c1.iter().zip(c2.iter()).filter(|(a, b)| a != b).map(|(a, _)| &a.0).collect();
+        if let Ok(dir) = std::env::var("C17_DUMP") {
+            if let Some(k) = differing.first() {
+                let _ = std::fs::create_dir_all(&dir);
+                let tag = format!("{}/{}_{}", dir, perm_done, k.replace('/', "_"));
+                let _ = std::fs::write(format!("{tag}.a"), &base.files[*k]);
+                let _ = std::fs::write(format!("{tag}.b"), &other.files[*k]);
+                let _ = std::fs::write(format!("{tag}.a.canon"), canon(&base.files[*k]).replace(" ; ", "\n"));
+                let _ = std::fs::write(format!("{tag}.b.canon"), canon(&other.files[*k]).replace(" ; ", "\n"));
+            }
+        }
         let t = format!("CPerm {} {} {} {}", coq_str(&base.verdict), coq_str(&other.verdict),
             coq_list(&c1, |(k, d)| format!("({}, {})", coq_str(k), coq_n(*d))), coq_list(&c2, |(k, d)| format!("({}, {})", coq_str(k), coq_n(*d))));
         cases.push(t, json!({"kind":"perm","schema_files":p.files(),"permuted_schema_files":f2,"operations":o2,"config":y2,
